@@ -659,7 +659,7 @@ def single_assign(f):
     return f["_single"]
 
 
-def inline_locals(f, e, depth=3, all_types=False):
+def inline_locals(f, e, depth=3, all_types=False, kinds=("int", "bool", "enum", "ptr")):
     """copy of expression e in which every read of a single-assignment scalar local of f is replaced by that local's
     initialiser (transitively, up to `depth`): lets shape rules see through `const T x = ...;` without caring about it.
     The copy is for matching and printing only (node ids repeat)."""
@@ -670,7 +670,7 @@ def inline_locals(f, e, depth=3, all_types=False):
             return n
         if n.get("k") == "DeclRefExpr" and n.get("var") in sa and d > 0 and not n.get("parm"):
             t = ty(f, n) or {}
-            if all_types or t.get("k") in ("int", "bool", "enum", "ptr"):
+            if all_types or t.get("k") in kinds:
                 return rec(sa[n["var"]], d - 1)
         if "c" in n and n["c"]:
             m = dict(n)
